@@ -53,3 +53,21 @@ double fracrevbits(uint32_t i) {
 uint64_t ceilto64b(uint64_t size) { return (size + UINT64_C(63)) & (UINT64_C(-64)); }
 
 uint64_t ceilto32b(uint64_t size) { return (size + UINT64_C(31)) & (UINT64_C(-32)); }
+
+#ifdef SPQLIOS_VERIF
+#include <string.h>
+static int spqlios_verif_mask_avx2 = 0;
+static int spqlios_verif_mask_fma = 0;
+static int spqlios_verif_mask_avx512 = 0;
+EXPORT void spqlios_verif_set_cpu_mask(int disable_avx2, int disable_fma, int disable_avx512) {
+  spqlios_verif_mask_avx2 = disable_avx2;
+  spqlios_verif_mask_fma = disable_fma;
+  spqlios_verif_mask_avx512 = disable_avx512;
+}
+EXPORT int spqlios_verif_cpu_supports(const char* feature, int detected) {
+  if (spqlios_verif_mask_avx2 && strcmp(feature, "avx2") == 0) return 0;
+  if (spqlios_verif_mask_fma && strcmp(feature, "fma") == 0) return 0;
+  if (spqlios_verif_mask_avx512 && strncmp(feature, "avx512", 6) == 0) return 0;
+  return detected;
+}
+#endif  // SPQLIOS_VERIF
